@@ -23,8 +23,8 @@ COLS = ["default", "strings", "labels"]
 
 
 # narrow integer dtypes: (NumPy type, scale of the values)
-NARROW = {"int8": (np.int8, 1), "int16": (np.int16, 30), "int32": (np.int32, 10**4)}
-DTYPES = ["int", "float", "int", "float", "int8", "int16", "int32"]
+NARROW = {"int8": (np.int8, 1), "int16": (np.int16, 30), "int32": (np.int32, 10**4), "float32": (np.float32, 4096)}
+DTYPES = ["int", "float", "int", "float", "int8", "int16", "int32", "float32"]
 
 
 def base_values(c):
@@ -32,8 +32,11 @@ def base_values(c):
     n, p = c["n"], c["p"]
     X = g.integers(-3, 4, size=(n, p))
     t = int(g.integers(4, n - 4))
-    X[t:] += int(g.choice([4, -5, 6]))
-    X[int(g.integers(n))] += 9
+    if c.get("quiet"):
+        X = X * 0 + (X % 2 == 0) * (np.arange(n).reshape(-1, 1) % 7 == 3)  # almost all zeros: at the baseline of every saving
+    if not c.get("quiet"):  # quiet series: nothing to detect (empty sparse output, all-zero dense labels)
+        X[t:] += int(g.choice([4, -5, 6]))
+        X[int(g.integers(n))] += 9
     if c["dtype"] in NARROW:  # values that fit the narrow integer type while their squares do not
         return X * NARROW[c["dtype"]][1]
     if c["big"]:
@@ -64,7 +67,7 @@ def gen_det(rng):
     return {"t": "det", "kind": kind, "n": rng.randint(20, 36), "p": p, "seed": rng.randint(0, 10**6), "container": container,
             "index": rng.choice(INDEXES), "cols": rng.choice(COLS), "dtype": rng.choice(DTYPES), "big": rng.random() < 0.3,
             "scale": rng.choice([0.5, 1.0, None]), "m": rng.randint(1, 3), "entry": rng.choice(["predict", "transform", "transform_scores", "transform_scores", "update", "fit_predict"]),
-            "ov": rng.choice([0, 1, 4])}
+            "ov": rng.choice([0, 1, 4]), "quiet": rng.random() < 0.15, "prior": rng.random() < 0.3}
 
 
 def outputs(det, kind, X, c, is_ref):
@@ -85,6 +88,9 @@ def outputs(det, kind, X, c, is_ref):
         return out
     det.fit(X)
     out["fitted"] = {a: float(getattr(det, a)) for a in vars(det) if a.endswith("_") and not a.startswith("_") and np.isscalar(getattr(det, a))}
+    if c.get("prior"):  # the fitted detector first sees OTHER numbers, passed as a plain array (default index), in every representation
+        other = np.asarray(X, dtype=float)[::-1] * 2.0 + 1.0
+        det.predict(other.reshape(len(other), -1))
     if c["entry"] in ("predict", "fit_predict"):
         y = det.predict(X) if c["entry"] == "predict" else det.fit_predict(X)
         out["predict"] = frame_sig(y)
